@@ -1,5 +1,5 @@
 """C04 A row is accepted iff all cells and row checks pass; errors name the culprit."""
-from contracts import validio as VIO
+from contracts import validio as VIO, errors as ER
 
 PROPERTY = "C04"
 TITLE = "A row is accepted iff all cells and row checks pass; errors name the culprit"
@@ -11,4 +11,4 @@ LEVEL_TEXT = "Deductive proof of validate_row (verdict, culprit column/field, lo
 LEVEL_NOTE = "Trusts the pyvc encoding (cross-checked natively each run), z3/cvc5; field/check behaviour is abstract (their own contracts are C02/C03/C05)."
 TECHNIQUE = "contract-based deductive verification: VCs generated from the ast of the real functions, discharged by z3/cvc5"
 UNITS = [VIO.unit_validate_row()]
-UNITS += [VIO.unit_reader_rows()]
+UNITS += [VIO.unit_reader_rows(), ER.unit_location_copy_and_str()]
